@@ -11,7 +11,9 @@ from collections import Counter
 
 from harness import common as C
 
-SHAPES = [[2], [2], [2]]        # equal cell layouts: accepted by jaxley.stone / jaxley.thomas as well
+# equal cell layouts (accepted by jaxley.stone / jaxley.thomas as well); the specification speaks about rows only, so the same
+# histories are replayed on three single-branch cells and on two branched cells (1 + 2 compartments each)
+LAYOUTS = {"three_cables": [[2], [2], [2]], "two_branched_cells": [[1, 2], [1, 2]]}
 
 
 def worker():
@@ -21,7 +23,7 @@ def worker():
     from jaxley.connect import connect
     job = json.load(open(sys.argv[1]))
     T, K = job["model"]["T"], job["model"]["K"]
-    base = pickle.dumps(probes.build_net(SHAPES, K))
+    base = pickle.dumps(probes.build_net(LAYOUTS[job["layout"]], K))
     res = {"states": 0, "mismatch": []}
 
     def view(net, ev):
@@ -31,7 +33,7 @@ def worker():
     for st in job["states"]:
         net = pickle.loads(base)
         nin = 0
-        sig = {"ntypes": len({e["ty"] for e in st["edges"]}), "ops": ",".join(sorted({h["op"] for h in st["hist"]}))}
+        sig = {"ntypes": len({e["ty"] for e in st["edges"]}), "ops": ",".join(sorted({h["op"] for h in st["hist"]})), "layout": job["layout"]}
         rank_in_type = {}
         cnt = Counter()
         for i, e in enumerate(st["edges"]):
@@ -138,7 +140,8 @@ def main(which):
         if ops[need] == 0:
             raise C.MachineryError("vacuity: no sampled history contains %s" % need)
     backends = ["jaxley.thomas", "jax.sparse"] if quick else ["jaxley.stone", "jaxley.thomas", "jax.sparse"]
-    jobs = [{"model": model, "states": ch, "backends": backends} for ch in C.chunks(sts, C.NCPU * 2)]
+    jobs = [{"model": model, "states": ch, "backends": backends, "layout": sorted(LAYOUTS)[(i + sd) % 2]}
+            for i, ch in enumerate(C.chunks(sts, C.NCPU * 2))]
     outs = C.run_workers("net_check", jobs, timeout=3000)
     n = 0
     c09 = {"edge_table", "voltages", "raised"}
@@ -148,7 +151,7 @@ def main(which):
         for m in o["mismatch"]:
             if m["kind"] not in (c09 if which == "C09" else c08):
                 continue
-            sig = {k: m[k] for k in ("kind", "ntypes", "global_edge_index_equals_rank_within_type") if k in m}
+            sig = {k: m[k] for k in ("kind", "ntypes", "layout", "global_edge_index_equals_rank_within_type") if k in m}
             if m["kind"] in ("recorded_synaptic_rows", "raised"):
                 sig["clamp_calls"] = min(m.get("clamps", 0), 2)
             chk.violation(sig, m)
